@@ -17,6 +17,7 @@ type Encoder struct {
 	guardsOn bool     // lock-discipline obligations are generated (property C11 is being checked)
 	unshared []string // object references the contract declares thread-private
 	unshDecl bool
+	fnTags   map[*ssa.Function]int
 	topEntry *State   // entry state of the function under contract (inlined frames have their own f.entry)
 	prog     *Program
 	ct       *Contracts
@@ -201,7 +202,7 @@ func (e *Encoder) comp(st *State, name, sort string) string {
 		return t
 	}
 	ep := ""
-	if !(strings.HasPrefix(name, "LW.") || strings.HasPrefix(name, "LR.") || name == "alloc" || strings.HasPrefix(name, "ITER.")) {
+	if !(strings.HasPrefix(name, "LW.") || strings.HasPrefix(name, "LR.") || name == "alloc" || strings.HasPrefix(name, "ITER.") || name == "CH.pending") {
 		for i := len(st.havocs) - 1; i >= 0; i-- {
 			if h := st.havocs[i]; h.ws == nil || h.ws.matches(name) {
 				ep = h.ep
@@ -665,4 +666,17 @@ func f64Lit(f float64) string {
 	}
 	bits := float64bits(f)
 	return fmt.Sprintf("(fp #b%01b #b%011b #b%052b)", bits>>63, (bits>>52)&0x7ff, bits&((1<<52)-1))
+}
+
+// fnTag numbers plain functions that are stored as values (distinct functions get distinct positive numbers).
+func (e *Encoder) fnTag(fn *ssa.Function) int {
+	if e.fnTags == nil {
+		e.fnTags = map[*ssa.Function]int{}
+	}
+	if t, ok := e.fnTags[fn]; ok {
+		return t
+	}
+	t := len(e.fnTags) + 1
+	e.fnTags[fn] = t
+	return t
 }
